@@ -11,12 +11,16 @@ def rlp_payload_len(items):
     return sum(len(rlp_encode(x)) for x in items)
 
 
-def gen_coinbase(rng):
+def gen_coinbase(rng, small=False):
     """returns (compressed coinbase field, expected cb txn hash bytes)"""
     n = rng.choice([65, 66, 100, 127, 128, 129, 191, 192, 193, 300, rng.randint(65, 2000)])
+    if small:
+        n = rng.choice([64, 65, 70, 128, 130])
     t = rng.randbytes(n)
     max_split = (n // 64) * 64
     split = rng.choice([0, 64, max_split, rng.randrange(0, max_split + 1, 64)])
+    if small:
+        split = max_split
     comp = struct.pack(">Q", split) + sha256_midstate(t[:split]) + t[split:]
     h = sha256_full(sha256_full(t))[::-1]
     return comp, h
@@ -32,7 +36,47 @@ def num(rng, maxbytes, allow_zero=True):
     return b
 
 
-def gen_block(rng, nfields=None, tiny=False):
+BOUNDARY_LENGTHS = [54, 55, 56, 57, 255, 256, 257]
+
+
+def gen_boundary_block(rng, nfields=None, which=None, target=None):
+    """a header one of whose RLP list payloads (the part without the merge-mining
+    fields, the ancestor-stripped form, or the whole header) has exactly a length
+    at which the RLP list prefix changes form"""
+    which0, target0 = which, target
+    for _ in range(200):
+        which = which0 or rng.choice(["no_mm", "no_mm", "stripped", "raw"])
+        target = target0 or rng.choice(BOUNDARY_LENGTHS)
+        b = gen_block(rng, nfields, tiny=True, small_tail=True)
+        fields = list(b["fields"])
+        nf = b["nfields"]
+
+        def part(fs):
+            if which == "no_mm":
+                return fs[:-3] if nf in (19, 20) else fs[:-1]
+            if which == "stripped":
+                return fs[:-2] if nf in (19, 20) else fs
+            return fs
+        for L in range(0, target + 2):
+            fields[6] = rng.randbytes(L)
+            if L == 1 and fields[6][0] < 0x80:
+                fields[6] = bytes([0x80 | fields[6][0]])
+            if rlp_payload_len(part(fields)) == target:
+                return _finish(fields, nf, b["cb_hash"])
+    raise AssertionError("could not fit %s=%s" % (which0, target0))
+
+
+def _finish(fields, nfields, cb_hash):
+    raw = rlp_encode(fields)
+    no_mm = fields[:-3] if nfields in (19, 20) else fields[:-1]
+    hash_fields = fields[:-2] if nfields in (19, 20) else fields
+    return {"raw": raw, "fields": fields, "nfields": nfields,
+            "mm_payload_len": rlp_payload_len(no_mm), "cb_hash": cb_hash,
+            "hash": keccak256(rlp_encode(hash_fields)),
+            "stripped": rlp_encode(hash_fields)}
+
+
+def gen_block(rng, nfields=None, tiny=False, small_tail=False):
     """returns dict(raw, fields, mm_payload_len, cb_hash or None, hash)"""
     nfields = nfields or rng.choice([17, 18, 19, 19, 20, 20])
     if tiny:
@@ -50,14 +94,8 @@ def gen_block(rng, nfields=None, tiny=False):
     fields.append(rng.randbytes(80 if not tiny else rng.randint(0, 3)))
     cb_hash = None
     if nfields in (19, 20):
-        fields.append(rng.randbytes(32 * rng.randint(0, 6)))
-        comp, cb_hash = gen_coinbase(rng)
+        fields.append(rng.randbytes(32 * rng.randint(0, 0 if small_tail else 6)))
+        comp, cb_hash = gen_coinbase(rng, small_tail)
         fields.append(comp)
     assert len(fields) == nfields
-    raw = rlp_encode(fields)
-    no_mm = fields[:-3] if nfields in (19, 20) else fields[:-1]
-    hash_fields = fields[:-2] if nfields in (19, 20) else fields
-    return {"raw": raw, "fields": fields, "nfields": nfields,
-            "mm_payload_len": rlp_payload_len(no_mm), "cb_hash": cb_hash,
-            "hash": keccak256(rlp_encode(hash_fields)),
-            "stripped": rlp_encode(hash_fields)}
+    return _finish(fields, nfields, cb_hash)
